@@ -5,7 +5,7 @@ from harness import core, e1common
 
 PROP = 'C02'
 MODULE = 'Props.C02'
-THEOREMS = ['C02_time_exact', 'C02_time_exact_nonvacuous', 'C02_nonneg', 'C02_time_is_abstract', 'C02_unit', 'C02_conserved', 'C02_enabled_within_elapsed', 'C02_disable_must_clear_pending', 'C02_recursion_refuted', 'C02_model_is_generated_core']
+THEOREMS = ['C02_time_exact', 'C02_time_exact_nonvacuous', 'C02_nonneg', 'C02_time_is_abstract', 'C02_unit', 'C02_conserved', 'C02_conserved_nonvacuous', 'C02_enabled_within_elapsed', 'C02_disable_must_clear_pending', 'C02_recursion_refuted', 'C02_model_is_generated_core']
 LEVEL = 'proof'
 FEATURES = [{'gen'}, {'rec'}, {'gen', 'rec'}, {'co'}, set(), {'gen', 'co'}, {'mutual', 'rec'}, {'gen', 'co', 'rec', 'mutual'}, {'selfdisable'}, {'selfdisable', 'gen'}, {'gen', 'straddle'}, {'delegators'}]
 
